@@ -498,6 +498,7 @@ def run_schema(schema: dict, rng, exercise: int = 40) -> SchemaRun:
             sr.finding("own-" + own[0], "at class creation: " + own[1], entry="<module>", input=None, exc=own[1], name=own[2])
         seal(start)
         sr.programs = CAPTURED[start:]
+        static_names_oracle(sr, schema)
         return sr
     d = mod.__dict__
     codecs = []
@@ -574,14 +575,7 @@ def run_schema(schema: dict, rng, exercise: int = 40) -> SchemaRun:
     sr.programs = CAPTURED[start:]
 
     # ---- static oracle
-    for i, rec in enumerate(sr.programs):
-        for fn, n in unresolved_names(rec):
-            sr.finding("static-unresolved-name", f"generated function {fn} loads global {n!r} which is neither in its globals nor a builtin",
-                       program=rec["code"], name=n)
-        for ch in unresolved_chains(rec):
-            sr.finding("static-unresolved-attr", f"generated code evaluates {ch} which does not exist", program=rec["code"], name=ch)
-        for ch in shadowed_module_roots(rec, {schema["module"].split(".")[0]}):
-            sr.finding("static-shadowed-module", f"generated code evaluates {ch}", program=rec["code"], name=ch)
+    static_names_oracle(sr, schema)
     # holder attributes read must exist on the object they are read from (after the build)
     for rec in sr.programs:
         if "CodeBuilder(" in rec["code"]:
@@ -599,6 +593,17 @@ def run_schema(schema: dict, rng, exercise: int = 40) -> SchemaRun:
     # rendered-name identity: every schema class must be what its rendered name denotes
     check_rendered_identity(sr, d)
     return sr
+
+
+def static_names_oracle(sr: SchemaRun, schema: dict):
+    for i, rec in enumerate(sr.programs):
+        for fn, n in unresolved_names(rec):
+            sr.finding("static-unresolved-name", f"generated function {fn} loads global {n!r} which is neither in its globals nor a builtin",
+                       program=rec["code"], name=n)
+        for ch in unresolved_chains(rec):
+            sr.finding("static-unresolved-attr", f"generated code evaluates {ch} which does not exist", program=rec["code"], name=ch)
+        for ch in shadowed_module_roots(rec, {schema["module"].split(".")[0]}):
+            sr.finding("static-shadowed-module", f"generated code evaluates {ch}", program=rec["code"], name=ch)
 
 
 def rendered_name(c) -> str:
@@ -695,7 +700,12 @@ def classify(f: dict, d: dict, module: str) -> dict:
         return {"kind": "wrong-class-bound", "cause": cause}
     if kind in ("static-unresolved-attr", "own-AttributeError") and name == "types.Dialect" and "default_dialect=types.Dialect" in (f.get("program") or f.get("what") or ""):
         return {"kind": "unresolved-attr", "cause": "merged-dialect-not-importable"}
+    if kind in ("static-unresolved-attr", "own-AttributeError") and name.split(".")[0] == module.split(".")[0] and module.split(".")[0] in SHADOWABLE:
+        return {"kind": "unresolved-attr", "cause": "module-name-shadowed", "module_root": module.split(".")[0]}
     if kind in ("static-unresolved-attr", "own-AttributeError"):
+        for c in classes:
+            if "<locals>" in getattr(c, "__qualname__", "") and name == f"{c.__module__}.{c.__name__}" and "_variants_" in (f.get("program") or f.get("what") or "_variants_"):
+                return {"kind": "unresolved-attr", "cause": "local-holder-discriminator-variants"}
         cause = "other"
         for c in classes:
             rn = rendered_name(c)
@@ -736,7 +746,7 @@ def classify(f: dict, d: dict, module: str) -> dict:
             cause = "defaultdict-factory-local"
         elif name.lstrip().startswith("CodeBuilder(") and "<locals>" in name:
             cause = "local-class-in-lazy-stub"
-        elif name.lstrip().startswith("if value != (") and " object at 0x" in name:
+        elif name.lstrip().startswith("if value != ("):
             cause = "omit-default-tuple-repr"
         return {"kind": "generated-syntax-error", "cause": cause}
     return {"kind": kind, "cause": "other"}
